@@ -10,7 +10,8 @@ from .driver import driver
 
 NAN = float("nan")
 POOLS = {
-    "int": [0, 1, 2 ** 53],
+    "int": [0, -1, -2, 2 ** 53],
+    "obj": [None, True, "x"],
     "float": [0.5, NAN, float("-inf")],
     "str": ["", "a", "b" * 50],
     "bool": [True, False],
@@ -24,7 +25,7 @@ def columns(kind, nrow):
 
 
 def mkcol(kind, values):
-    dt = {"int": int, "float": float, "str": str, "bool": bool, "date": "datetime64[D]"}[kind]
+    dt = {"int": int, "float": float, "str": str, "bool": bool, "date": "datetime64[D]", "obj": object}[kind]
     return Vector(values, dt)
 
 
@@ -215,7 +216,7 @@ def is_missing(x):
         return False
 
 
-KALL = ("int", "float", "str", "date")
+KALL = ("int", "float", "str", "date", "obj")
 rows_driver(P + "drop_na[one column]", lambda s, run: [(s[0][0],)], lambda d, k: d.drop_na(k),
             lambda d, k: [i for i in range(d.nrow) if not is_missing(d[k][i])], kinds=KALL)
 rows_driver(P + "drop_na[two columns]", lambda s, run: [(s[0][0], s[1][0])] if len(s) > 1 else [],
@@ -493,3 +494,32 @@ def c01_ctor_driver(run):
         except ValueError as e:
             ok, obs = not should, f"ValueError {e}"
         run.check([s1, n1, s2, n2], ok, expected="accepted with broadcast" if should else "rejected", got=obs, clause="constructor")
+
+
+frame_driver(P + "rename[swap of two names]", lambda s, run: [()] if len(s) > 1 else [],
+             lambda d: (d.rename(c0="c1", c1="c0"), []), lambda d: [("c1", d.c0), ("c0", d.c1)])
+
+
+def two_others(spec, run):
+    n = nrow_of(spec)
+    f = lambda v: enc([v] * n)
+    return [([("z", "float", f(0.5)), ("c0", "float", f(1.5))], [("z", "float", f(2.5)), ("w", "float", f(3.5))])]
+
+
+def _cbind2(d, o1, o2):
+    a, b = build([tuple(x) for x in o1]), build([tuple(x) for x in o2])
+    return d.cbind(a, b), [a, b]
+
+
+def _cbind2_expect(d, o1, o2):
+    a, b = build([tuple(x) for x in o1]), build([tuple(x) for x in o2])
+    out, seen = [], set()
+    for fr in (d, a, b):
+        for n in fr.colnames:
+            if n not in seen:
+                seen.add(n)
+                out.append((n, fr[n]))
+    return out
+
+
+frame_driver(P + "cbind[two other frames]", two_others, _cbind2, _cbind2_expect, kinds=("int", "float"))
